@@ -355,7 +355,11 @@ func c19Parsers(c *mc.Ctx, st *Stream, refPk []*ref.Pkt) {
 	// mode: -2 observer (skip=false), -1 replacer (skip=true, one data per unit), k>=0 failing at call k;
 	// -3 replacer returning nil, -4 replacer returning an empty slice, -5 replacer returning two data,
 	// -(6+k) replacer returning nothing for unit k and one data for every other unit
+	modes := []int{-1000} // -1000: replacer returning a marker that carries nothing but the PID (the zero value on PID 0)
 	for mode := -6 - (nUnits - 1); mode < nUnits; mode++ {
+		modes = append(modes, mode)
+	}
+	for _, mode := range modes {
 		groups := map[uint16][][]int{}
 		var returned []string
 		calls := 0
@@ -392,6 +396,10 @@ func c19Parsers(c *mc.Ctx, st *Stream, refPk []*ref.Pkt) {
 			}
 			groups[pid] = append(groups[pid], idx)
 			switch {
+			case mode == -1000:
+				d := &astits.DemuxerData{PID: pid}
+				returned = append(returned, mc.Canon(d))
+				return []*astits.DemuxerData{d}, true, nil
 			case mode == -3 || mode == -6-call:
 				return nil, true, nil
 			case mode == -4:
@@ -515,7 +523,7 @@ func checkC20(c *mc.Ctx) {
 		depth = 8
 	}
 	streams := c19Streams(c.Seed)
-	streams = append(streams, &Stream{Name: "big-payloads", Bytes: BigPayloadStream(c.Seed)}, MultiSectionStream(c.Seed), NetworkPIDStream(c.Seed, 0x10), NetworkPIDStream(c.Seed, 0x50), HeadlessStream(c.Seed))
+	streams = append(streams, &Stream{Name: "big-payloads", Bytes: BigPayloadStream(c.Seed)}, MultiSectionStream(c.Seed), NetworkPIDStream(c.Seed, 0x10), NetworkPIDStream(c.Seed, 0x50), HeadlessStream(c.Seed), BrokenSectionStream(c.Seed))
 	for _, st0 := range streams {
 		for _, cfg := range []struct {
 			auto bool
@@ -531,16 +539,13 @@ func checkC20(c *mc.Ctx) {
 			// the options of the Demuxer survive a Rewind: a skipper that removes every packet with an odd
 			// continuity counter or of the null PID, a parser that replaces the data of the PAT
 			mk := func() *astits.Demuxer { return c20Demuxer(st.Bytes, auto, size, optName) }
-			fd := DrainData(mk(), len(st.Bytes))
-			fp := DrainPackets(mk(), len(st.Bytes))
-			var freshD, freshP []string
-			for _, x := range fd.Data {
-				freshD = append(freshD, mc.Canon(x))
+			freshD, endD := c20Answers(mk(), "data", len(st.Bytes))
+			freshP, endP := c20Answers(mk(), "packet", len(st.Bytes))
+			if !endD || !endP {
+				c.Rep.Report("fresh-run-never-ends", map[string]any{"kind": "rewind", "stream": st.Name, "auto": auto, "option": optName, "size": size, "ops": "", "bytes": mc.Hex(st.Bytes), "message": "a fresh Demuxer does not reach ErrNoMorePackets"})
+				continue
 			}
-			for _, x := range fp.Pkts {
-				freshP = append(freshP, mc.Canon(x))
-			}
-			totalD, totalP := fd.Calls, fp.Calls
+			totalD, totalP := len(freshD), len(freshP)
 			// sequences: explicit list of op strings (P D R)
 			var seqs []string
 			r := mc.Radix{}
@@ -597,27 +602,15 @@ func checkC20(c *mc.Ctx) {
 					fail("panic", fmt.Sprint(p))
 					return
 				}
-				var got, want []string
-				if finalAPI == "data" {
-					o := DrainData(d, len(st.Bytes))
-					if o.Panic != nil || !o.EOF || len(o.Errs) > 0 {
-						fail("after-rewind-run-failed", fmt.Sprintf("panic=%v eof=%v errs=%v", o.Panic, o.EOF, errStrings(o.Errs)))
-						return
-					}
-					for _, x := range o.Data {
-						got = append(got, mc.Canon(x))
-					}
-					want = freshD
-				} else {
-					o := DrainPackets(d, len(st.Bytes))
-					if o.Panic != nil || !o.EOF || len(o.Errs) > 0 {
-						fail("after-rewind-run-failed", fmt.Sprintf("panic=%v eof=%v errs=%v", o.Panic, o.EOF, errStrings(o.Errs)))
-						return
-					}
-					for _, x := range o.Pkts {
-						got = append(got, mc.Canon(x))
-					}
+				// the complete sequence of answers (data or packets, errors, end) must be that of a fresh Demuxer
+				got, ended := c20Answers(d, finalAPI, len(st.Bytes))
+				want := freshD
+				if finalAPI == "packet" {
 					want = freshP
+				}
+				if !ended {
+					fail("after-rewind-run-failed", "ErrNoMorePackets not reached after the Rewind")
+					return
 				}
 				if !equalStrs(got, want) {
 					fail("rewind-residue:"+finalAPI, fmt.Sprintf("after %q + Rewind the demuxer delivers %d results, a fresh one %d (or contents differ)", s, len(got), len(want)))
@@ -639,6 +632,29 @@ func checkC20(c *mc.Ctx) {
 	c.Ev.Require("rewind-after-consumption", "rewind-with-skipper-or-parser", "rewind-after-failed-detection")
 }
 
+// BrokenSectionStream: units whose second section is damaged (wrong CRC_32) behind a valid first one, on
+// the PAT PID, a PMT PID and an SI PID, and a PES whose header is cut short: a fresh Demuxer answers
+// with data and errors in a certain order, a rewound one must answer the same.
+func BrokenSectionStream(seed int64) *Stream {
+	ccs := []uint8{0, 0, 0, 0}
+	bad := func(sec []byte) []byte {
+		b := append([]byte{}, sec...)
+		b[len(b)-1] ^= 0xff
+		return b
+	}
+	patA, patB := SecPAT(modelPAT(1, 0x1000), ref.SecHdr{CNI: true, LSN: 1}), SecPAT(modelPAT(2, 0x1001), ref.SecHdr{CNI: true, SN: 1, LSN: 1})
+	sdtA, sdtB := SecSDT(modelSDT(1), ref.SecHdr{CNI: true, LSN: 1}), SecSDT(modelSDT(2), ref.SecHdr{CNI: true, SN: 1, LSN: 1})
+	pmtA, pmtB := SecPMT(modelPMT(1, 0x100, 1), ref.SecHdr{CNI: true, LSN: 1}), SecPMT(modelPMT(1, 0x100, 2), ref.SecHdr{CNI: true, SN: 1, LSN: 1})
+	lists := [][]*ref.Pkt{
+		// a complete PAT first (the domain: the PAT precedes the PMTs), then one whose second section is damaged
+		append(Packetize(PSIUnit(0, 0, [][]byte{patA, patB}, nil), nil, &ccs[0], true), Packetize(PSIUnit(0, 0, [][]byte{patA, bad(patB)}, nil), nil, &ccs[0], true)...),
+		Packetize(PSIUnit(0x1000, 0, [][]byte{pmtA, bad(pmtB)}, nil), nil, &ccs[1], true),
+		append(Packetize(PSIUnit(0x11, 0, [][]byte{sdtA, bad(sdtB)}, nil), nil, &ccs[2], true), Packetize(PSIUnit(0x11, 0, [][]byte{sdtB}, nil), nil, &ccs[2], true)...),
+		append(Packetize(SUnit{PID: 0x100, Bytes: []byte{0, 0, 1, 0xe0, 0, 0, 0x80, 0xc0, 40, 0x31}}, nil, &ccs[3], false), Packetize(PESUnit(0x100, 0xe0, pesPayload(95, 50, seed), 1, false), nil, &ccs[3], false)...),
+	}
+	return BuildStream("broken-second-sections", lists, roundRobin(lists), nil)
+}
+
 // NetworkPIDStream: the PAT announces the network PID under program_number 0 (the default 0x10, or a
 // private one), and that PID carries a section before the first PAT as well as after it (the PAT still
 // precedes the PMT): what a Demuxer learns from the PAT must not change how it treats, after a Rewind,
@@ -657,6 +673,34 @@ func NetworkPIDStream(seed int64, netPID uint16) *Stream {
 	// order: NIT-A, PAT, PMT, PES, NIT-B
 	order := []int{0, 1, 2, 3, 0}
 	return BuildStream(fmt.Sprintf("network-pid-%#x-before-pat", netPID), lists, order, nil)
+}
+
+// c20Answers drains a Demuxer through one API and returns every answer in order: the canonical dump of a
+// datum / packet, "error: ..." for a non-EOF error (the caller carries on), up to ErrNoMorePackets.
+func c20Answers(d *astits.Demuxer, api string, inputLen int) (out []string, ended bool) {
+	defer func() {
+		if r := recover(); r != nil {
+			out = append(out, fmt.Sprint("panic: ", r))
+		}
+	}()
+	for i := 0; i < inputLen/8+64; i++ {
+		var x any
+		var err error
+		if api == "data" {
+			x, err = d.NextData()
+		} else {
+			x, err = d.NextPacket()
+		}
+		switch {
+		case errors.Is(err, astits.ErrNoMorePackets):
+			return out, true
+		case err != nil:
+			out = append(out, "error: "+err.Error())
+		default:
+			out = append(out, mc.Canon(x))
+		}
+	}
+	return out, false
 }
 
 // c20Demuxer builds the Demuxer of a C20 configuration (shared with the replayer). Options: a skipper
